@@ -725,9 +725,9 @@ class _ActionSubCommands(_SubParsersAction):
                     f'explicit "{dest}" key. Subcommand "{subcommand}" will be used.'
                 )
 
-        # Remove extra subcommand settings
-        if subcommand and len(subcommand_keys) > 1:
-            for key in [k for k in subcommand_keys if k != subcommand]:
+        # Remove extra subcommand settings, also null ones, e.g. an empty "fit:" section
+        if subcommand:
+            for key in [k for k in action.choices if k != subcommand and prefix + k in cfg]:
                 del cfg[prefix + key]
 
         if subcommand:
